@@ -2,6 +2,7 @@ package main
 
 import (
 	"bytes"
+	"errors"
 	"fmt"
 	"io/ioutil"
 	"math"
@@ -569,7 +570,7 @@ func raceSuite(c *Ctx) []Finding {
 		out := filepath.Join(dir, "sum.txt")
 		os.Remove(out)
 		cmd := &wcmd.SumCommand{SrcBase: base, ItemPattern: "it", SrcPattern: "*.wsp", From: wt.Timestamp(g.now - g.lay.MaxRet()), Until: wt.Timestamp(g.now), ArchiveID: -1, TextOut: out, ShowHeader: true}
-		err := cmd.Execute()
+		err := execWithin(40*time.Second, cmd.Execute)
 		b, _ := ioutil.ReadFile(out)
 		p := parseOutput(string(b))
 		var parts []string
@@ -617,7 +618,11 @@ func raceSuite(c *Ctx) []Finding {
 		var msgs []string
 		for rep := 0; rep < 6; rep++ {
 			cmd := &wcmd.SumCommand{SrcBase: root, ItemPattern: "it2", SrcPattern: "*.wsp", From: wt.Timestamp(g.now - g.lay.MaxRet()), Until: wt.Timestamp(g.now), ArchiveID: g.lay.K() - 1, TextOut: ""}
-			err := cmd.Execute()
+			err := execWithin(40*time.Second, cmd.Execute)
+			if err == errStalled {
+				bad("sum-stalled-after-refused-sum", "a sum over the same files as a sum that was refused a moment ago did not return within 40 s: the refused one left a file locked")
+				break
+			}
 			if err == nil {
 				bad("sum-partial-failure-ok", "sum over files of which two have no such archive returned success")
 				break
@@ -664,7 +669,7 @@ func raceSuite(c *Ctx) []Finding {
 				close(release)
 			}
 			cmd := &wcmd.SumCommand{SrcBase: root, ItemPattern: "it3", SrcPattern: "*.wsp", From: wt.Timestamp(g.now - g.lay.MaxRet()), Until: wt.Timestamp(g.now), ArchiveID: -1, TextOut: out, ShowHeader: true}
-			err := cmd.Execute()
+			err := execWithin(40*time.Second, cmd.Execute)
 			<-release
 			b, _ := ioutil.ReadFile(out)
 			p := parseOutput(string(b))
@@ -724,7 +729,7 @@ func raceSuite(c *Ctx) []Finding {
 			out := filepath.Join(dir, "sum4.txt")
 			os.Remove(out)
 			cmd := &wcmd.SumCommand{SrcBase: root, ItemPattern: "it4", SrcPattern: "*.wsp", From: wt.Timestamp(g.now - g.lay.MaxRet()), Until: wt.Timestamp(g.now), ArchiveID: -1, TextOut: out, ShowHeader: true}
-			err := cmd.Execute()
+			err := execWithin(40*time.Second, cmd.Execute)
 			b, _ := ioutil.ReadFile(out)
 			po := parseOutput(string(b))
 			var parts []string
@@ -790,8 +795,21 @@ func raceSuite(c *Ctx) []Finding {
 			"/items?pattern=", "/items?pattern=%5B", "/files?pattern=", "/files?pattern=%5B",
 		}
 		seq := make([]string, len(urls))
+		stalled := 0
 		for i, u := range urls {
 			seq[i] = httpBody(base + u)
+			if seq[i] == "stalled" {
+				stalled++
+			}
+		}
+		// once more, one by one, after the requests that are refused have been made: a refused
+		// request must leave nothing behind (a file still locked) that makes a later one wait
+		for i, u := range urls {
+			if b := httpBody(base + u); b == "stalled" {
+				stalled++
+			} else if b != seq[i] && seq[i] != "stalled" {
+				bad("request-differs-after-refusals", fmt.Sprintf("%s answered differently the second time it was asked alone", u))
+			}
 		}
 		var wg sync.WaitGroup
 		mism := 0
@@ -808,7 +826,7 @@ func raceSuite(c *Ctx) []Finding {
 					defer wg.Done()
 					b := httpBody(base + u)
 					mu.Lock()
-					if b != seq[i] {
+					if b != seq[i] || b == "stalled" {
 						mism++
 					}
 					mu.Unlock()
@@ -817,6 +835,9 @@ func raceSuite(c *Ctx) []Finding {
 		}
 		wg.Wait()
 		count("parallel-requests", fmt.Sprintf("ok %d", par*len(urls)))
+		if stalled > 0 {
+			bad("request-stalled", fmt.Sprintf("%d requests asked one at a time were not answered within %v (each reads a few kilobytes; some follow a request the server refuses)", stalled, stallClient.Timeout))
+		}
 		if mism > 0 {
 			bad("request-differs", fmt.Sprintf("%d parallel requests returned a body different from the same request served alone", mism))
 		}
@@ -843,11 +864,34 @@ func raceSuite(c *Ctx) []Finding {
 	return findings
 }
 
+// execWithin runs a command and gives up waiting after d: a command of the race suite reads a
+// handful of small files, so one that has not returned by then is waiting for something — a
+// file an earlier, refused command left locked.  (The abandoned call finishes on its own.)
+var errStalled = errors.New("stalled: the command did not return in time")
+
+func execWithin(d time.Duration, run func() error) error {
+	done := make(chan error, 1)
+	go func() { done <- run() }()
+	select {
+	case err := <-done:
+		return err
+	case <-time.After(d):
+		return errStalled
+	}
+}
+
 func tsq(t int) string { return strings.ReplaceAll(wt.Timestamp(t).String(), ":", "%3A") }
 
+// a request that is not answered within this time is stalled: the requests of the race suite
+// read files of a few kilobytes
+var stallClient = &http.Client{Timeout: 30 * time.Second}
+
 func httpBody(url string) string {
-	resp, err := http.Get(url)
+	resp, err := stallClient.Get(url)
 	if err != nil {
+		if ue, ok := err.(interface{ Timeout() bool }); ok && ue.Timeout() {
+			return "stalled"
+		}
 		return "error " + err.Error()
 	}
 	defer resp.Body.Close()
